@@ -613,8 +613,10 @@ class ExcelModel:
 
         res = dsp()
 
-        # Volatile cells and their dependants are evaluated at each call.
-        stack, volatile, succ = [], set(), dsp.dmap.succ
+        # Volatile cells and their dependants are evaluated at each call, like
+        # the dependants of the inputs (e.g., `#CIRC!` of an open cycle).
+        stack, volatile, succ = [k for k in inp if k in dsp.nodes], set(), \
+            dsp.dmap.succ
         for k, node in dsp.function_nodes.items():
             try:
                 if COMPILING in node['function'].func.dsp.nodes:
